@@ -141,7 +141,10 @@ CLAIMED = {
                      'float; a source counts as completely masked exactly when every pixel of '
                      'its cutout is; bounding box k and segment_area k are those of label k inside its '
                      'own slices; the per-source loops of the local background and of the min / max '
-                     'indices carry no state from one row to the next; the segmentation image '
+                     'indices carry no state from one row to the next; _mask_to_mirrored_value replaces '
+                     'a neighbour pixel by the pixel mirrored through the source centre, or by 0 when '
+                     'that mirror is off the image, to be replaced itself or masked, and leaves every '
+                     'other pixel alone; the segmentation image '
                      'labels/slices stay coherent under renumbering. The defining formulas are checked bounded with an '
                      'exact-rational pixel-loop oracle incl. row locality.',
                 note='formulas bounded only; known finding F41 (thin-source covariance NaN)'),
@@ -266,7 +269,8 @@ CLAIMED = {
                      'full-size box inside the image that contains the peak pixel and returns the '
                      'stationary point (a maximum) of the fitted polynomial; both boxes are derived from the '
                      'verified _overlap_slices contract (over the assumed astropy window) and box sizes '
-                     'are clipped per axis by as_pair (scalar and pair forms). Exactness on symmetric / '
+                     'are clipped per axis by as_pair (scalar and pair forms); py2intround (the pixel containing '
+                     'a given xpeak / ypeak) rounds to the nearest integer with ties away from zero. Exactness on symmetric / '
                      'quadratic sources is checked bounded.',
                 note='Gaussian fits bounded only'),
     'C18': dict(engine='effects+pyvc', technique=f'{_T} (frames, loop independence, residual = '
